@@ -1,5 +1,5 @@
 (** Single entry point of the extracted model: request -> answer. *)
-From Physt Require Import Sx Merge Calc1D CalcND Fill ArithCases ScaleCases Project Index StatsCases DtypeCases Adaptive Atomic Heap Ctx Json Binning Transform Geometry Containers.
+From Physt Require Import Sx Merge Calc1D CalcND Fill ArithCases ScaleCases Project Index StatsCases DtypeCases Adaptive Atomic Heap Ctx Json Binning Transform Geometry Containers Plot.
 
 Definition run (req : sx) : sx :=
   match req with
@@ -22,6 +22,7 @@ Definition run (req : sx) : sx :=
   | LL [SS "C15"; c; o] => judge_C15 c o
   | LL [SS "C16"; c; o] => judge_C16 c o
   | LL [SS "C17"; c; o] => judge_C17 c o
+  | LL [SS "C20"; c; o] => judge_C20 c o
   | LL [SS "C19"; c; o] => judge_C19 c o
   | LL [SS "C10"; c; o] => judge_C10 c o
   | LL [SS "sumq"; l] => match d_list d_q l with Some qs => QQ (sumq qs) | None => illformed end
